@@ -343,3 +343,169 @@ pub fn run_pest<R: pest::RuleType, P: pest::Parser<R>>(rule: R, input: &str, wra
         Err(e) => PestObs { panicked: Some(panic_msg(e)), ..PestObs::default() },
     }
 }
+
+// ---------------------------------------------------------------------------------------
+// C16: flattening of getter results
+
+/// A referenced node as the getters return it.
+pub trait Leaf {
+    fn info(&self, out: &mut String);
+}
+
+/// Rendering helper for rule structs (used by the generated `Leaf` impls).
+pub fn rule_leaf<'i, R: RuleType, T: Pairs<'i, R>>(t: &T, name: &str, span: Option<(usize, usize)>, out: &mut String) {
+    out.push_str(name);
+    if let Some((a, b)) = span {
+        out.push_str(&format!("@{}..{}", a, b));
+    }
+    let toks: Vec<Tok> = t.self_or_children().iter().map(tok_of).collect();
+    out.push('[');
+    out.push_str(&verif_core::interp::render_toks(&toks));
+    out.push(']');
+}
+
+pub trait Flat {
+    fn flat(&self, out: &mut String);
+}
+impl<T: Leaf> Flat for &T {
+    fn flat(&self, out: &mut String) {
+        (*self).info(out)
+    }
+}
+impl<F: Flat> Flat for Option<F> {
+    fn flat(&self, out: &mut String) {
+        match self {
+            Some(x) => {
+                out.push('?');
+                x.flat(out)
+            }
+            None => out.push('-'),
+        }
+    }
+}
+impl<F: Flat> Flat for Vec<F> {
+    fn flat(&self, out: &mut String) {
+        out.push('[');
+        for (i, x) in self.iter().enumerate() {
+            if i > 0 {
+                out.push(',');
+            }
+            x.flat(out);
+        }
+        out.push(']');
+    }
+}
+macro_rules! flat_tuple {
+    ($($T:ident $i:tt),+) => {
+        impl<$($T: Flat),+> Flat for ($($T,)+) {
+            fn flat(&self, out: &mut String) {
+                out.push('(');
+                $(
+                    if $i > 0 { out.push(','); }
+                    self.$i.flat(out);
+                )+
+                out.push(')');
+            }
+        }
+    };
+}
+flat_tuple!(A 0, B 1);
+flat_tuple!(A 0, B 1, C 2);
+flat_tuple!(A 0, B 1, C 2, D 3);
+flat_tuple!(A 0, B 1, C 2, D 3, E 4);
+flat_tuple!(A 0, B 1, C 2, D 3, E 4, F 5);
+flat_tuple!(A 0, B 1, C 2, D 3, E 4, F 5, G 6);
+flat_tuple!(A 0, B 1, C 2, D 3, E 4, F 5, G 6, H 7);
+flat_tuple!(A 0, B 1, C 2, D 3, E 4, F 5, G 6, H 7, I 8);
+flat_tuple!(A 0, B 1, C 2, D 3, E 4, F 5, G 6, H 7, I 8, J 9);
+flat_tuple!(A 0, B 1, C 2, D 3, E 4, F 5, G 6, H 7, I 8, J 9, K 10);
+flat_tuple!(A 0, B 1, C 2, D 3, E 4, F 5, G 6, H 7, I 8, J 9, K 10, L 11);
+
+pub fn flat<F: Flat>(f: &F) -> String {
+    let mut s = String::new();
+    f.flat(&mut s);
+    s
+}
+
+// built-in nodes as leaves
+mod builtin_leaves {
+    use super::Leaf;
+    use pest_typed::choices::{Choice2, Choice3};
+    use pest_typed::predefined_node::*;
+    impl Leaf for ANY {
+        fn info(&self, out: &mut String) {
+            out.push_str(&format!("{:?}", self.content));
+        }
+    }
+    impl<const A: char, const B: char> Leaf for CharRange<A, B> {
+        fn info(&self, out: &mut String) {
+            out.push_str(&format!("{:?}", self.content));
+        }
+    }
+    impl<X: Leaf, Y: Leaf> Leaf for Choice2<X, Y> {
+        fn info(&self, out: &mut String) {
+            match self {
+                Choice2::_0(x) => x.info(out),
+                Choice2::_1(x) => x.info(out),
+            }
+        }
+    }
+    impl<X: Leaf, Y: Leaf, Z: Leaf> Leaf for Choice3<X, Y, Z> {
+        fn info(&self, out: &mut String) {
+            match self {
+                Choice3::_0(x) => x.info(out),
+                Choice3::_1(x) => x.info(out),
+                Choice3::_2(x) => x.info(out),
+            }
+        }
+    }
+    impl Leaf for SOI {
+        fn info(&self, out: &mut String) {
+            out.push_str("SOI");
+        }
+    }
+    impl Leaf for DROP {
+        fn info(&self, out: &mut String) {
+            out.push_str("DROP");
+        }
+    }
+    impl Leaf for NEWLINE {
+        fn info(&self, out: &mut String) {
+            out.push_str(match self.content {
+                NewLineType::CRLF => "NL:CRLF",
+                NewLineType::LF => "NL:LF",
+                NewLineType::CR => "NL:CR",
+            });
+        }
+    }
+    impl<'i> Leaf for PEEK<'i> {
+        fn info(&self, out: &mut String) {
+            out.push_str(&format!("PEEK@{}..{}", self.span.start(), self.span.end()));
+        }
+    }
+    impl<'i> Leaf for PEEK_ALL<'i> {
+        fn info(&self, out: &mut String) {
+            out.push_str(&format!("PEEK_ALL@{}..{}", self.span.start(), self.span.end()));
+        }
+    }
+    impl<'i> Leaf for POP_ALL<'i> {
+        fn info(&self, out: &mut String) {
+            out.push_str(&format!("POP_ALL@{}..{}", self.span.start(), self.span.end()));
+        }
+    }
+    impl<'i> Leaf for POP<'i> {
+        fn info(&self, out: &mut String) {
+            out.push_str(&format!("POP{:?}", self.span.as_str()));
+        }
+    }
+    macro_rules! uni {
+        ($($n:ident),*) => { $(
+            impl Leaf for unicode::$n {
+                fn info(&self, out: &mut String) {
+                    out.push_str(&format!("{:?}", self.content));
+                }
+            }
+        )* };
+    }
+    uni!(LETTER, NUMBER, UPPERCASE_LETTER, LOWERCASE_LETTER, HAN, EMOJI, PUNCTUATION, ALPHABETIC, GREEK, WHITE_SPACE);
+}
